@@ -417,7 +417,6 @@ Copy(h, g) ==
           /\ Answer("copy", arg, "ok", AnyOut, Released(h))
 
 Release(h) ==
-  /\ ~IsNull(h)
   /\ UNCHANGED kind
   /\ Account(<<>>, Released(h))
   /\ Private(h, Null) /\ SetV(h, <<>>)
@@ -448,7 +447,7 @@ Pos == (-2)..MaxArg
 Next ==
   \/ \E h \in H : LET A == (Prune => h = 1) IN
        \/ \E g \in H : Copy(h, g)
-       \/ A /\ Release(h)
+       \/ A /\ ~IsNull(h) /\ Release(h)
        \* reference_array
        \/ \E pos \in Pos, o \in 0..NO : ((Prune /\ h # 1) => (pos = 0 /\ o = 1)) /\ RInsert(h, pos, o)
        \/ \E pos \in Pos, o \in 0..NO : A /\ RSet(h, pos, o)
